@@ -82,6 +82,18 @@ def composite_glyph(comps):
 def rand_contour(rng, kind):
     n = rng.randint(3, 7)
     P = lambda: (rng.randint(-60, 420), rng.randint(-120, 520))
+    if kind in ("gridpoly", "gridmixed"):
+        # points on a few shared verticals / horizontals (stems): neighbours with equal coordinates
+        xs = [rng.randint(-40, 120), rng.randint(150, 260), rng.randint(300, 420)]
+        ys = [rng.randint(-100, 40), rng.randint(120, 300), rng.randint(380, 520)]
+        m = rng.randint(5, 9)
+        pts = [(rng.choice(xs), rng.choice(ys)) for _ in range(m)]
+        if kind == "gridpoly":
+            return [p + (1,) for p in pts]
+        out = [p + (1 if rng.random() < 0.6 else 0,) for p in pts]
+        if not any(o[2] for o in out):
+            out[0] = out[0][:2] + (1,)
+        return out
     if kind == "poly":
         return [P() + (1,) for _ in range(n)]
     if kind == "alloff":
@@ -107,8 +119,8 @@ def rand_contour(rng, kind):
     return pts
 
 
-SIMPLE_KINDS = [["poly"], ["mixed"], ["alloff"], ["offstart"], ["mixed", "alloff"], ["single", "poly"], ["dupend"],
-                ["mixed", "mixed", "poly"], ["two", "mixed"], ["poly", "offstart"]]
+SIMPLE_KINDS = [["gridpoly"], ["mixed"], ["alloff"], ["offstart"], ["gridmixed", "alloff"], ["single", "poly"], ["dupend"],
+                ["mixed", "gridmixed", "poly"], ["two", "mixed"], ["gridpoly", "offstart"]]
 
 
 def flag_combos():
